@@ -27,7 +27,7 @@ MANIFEST = dict(
          "GeckoShell.do_snapshot + GeckoCmd.do_logfile + GeckoSnapshot.parse_log_file, against real re.search per expression, "
          "and of pyReprBytes/litEval against CPython EXHAUSTIVELY on all 256 bytes and all 65 536 ordered byte pairs. "
          "Enumeration on the implementation (not a theorem): all 34 shipped snapshot files are parsed, loaded into the real "
-         "GeckoSimulator and served to a real async and a real threaded-class client; the client block equals the parsed bytes. Traffic logs in segmentations from 4 to 255 bytes and uneven ones. Session 5: the identity a client learns through the real version / channel / config-file exchanges (firmware versions, platform, config and log table versions) equals the snapshot's, for every shipped record (8 of them have differing config and log versions). Round 15: the simulator at reliability 0.5 with a scripted random.random losing exactly one datagram (each of the first fifteen draws in turn) - the client ends with the loaded snapshot; blocks carrying the protocol's own markup in the traffic-log family (full log: known finding D18 for a closing tag inside a segment's data; records of whole datagrams only: must reassemble).",
+         "GeckoSimulator and served to a real async and a real threaded-class client; the client block equals the parsed bytes. Traffic logs in segmentations from 4 to 255 bytes and uneven ones. Session 5: the identity a client learns through the real version / channel / config-file exchanges (firmware versions, platform, config and log table versions) equals the snapshot's, for every shipped record (8 of them have differing config and log versions). Round 15: the simulator at reliability 0.5 with a scripted random.random losing exactly one datagram (each of the first fifteen draws in turn) - the client ends with the loaded snapshot; blocks carrying the protocol's own markup in the traffic-log family (full log: known finding D18 for a closing tag inside a segment's data; records of whole datagrams only: must reassemble). Round 17: do_snapshot through a buffering log handler with the block replaced between the command and the flush - the snapshot is the block at the time of the command.",
     note="Trusted: Lean kernel; CPython's bytes.__repr__, ast.literal_eval, re and int() are modelled and validated by "
          "correspondence, not verified; the model's character classes are ASCII (SafeName requires printable ASCII names); "
          "the serving of shipped snapshots is an exhaustive enumeration of a finite set on the implementation "
@@ -188,6 +188,32 @@ def real_write(cap, name, hdr, block):
     cap.shell.facade = O()
     cap.shell.facade.spa = stub_spa(hdr, block)
     cap.GeckoShell.do_snapshot(cap.shell, name)
+    return cap.text()
+
+
+def real_write_buffered(cap, name, hdr, block):
+    """the same through a BUFFERING log handler (logging.handlers.MemoryHandler in front of the shell's file handler - what an application
+    does that batches its log output): the records are formatted when the buffer is flushed, and by then the spa has reported a change.
+    The snapshot is the block as it was when the command ran."""
+    import logging.handlers
+    cap.reset()
+    cap.shell.facade = O()
+    spa = stub_spa(hdr, block)
+    cap.shell.facade.spa = spa
+    fh = cap.shell.file_logger
+    root = logging.getLogger()
+    mh = logging.handlers.MemoryHandler(capacity=10000, flushLevel=logging.CRITICAL + 1, target=fh)
+    root.removeHandler(fh)
+    root.addHandler(mh)
+    try:
+        cap.GeckoShell.do_snapshot(cap.shell, name)
+        spa.struct.status_block = bytes((b + 1) % 256 for b in block)       # the next partial update / refresh replaces the block
+        mh.flush()
+    finally:
+        root.removeHandler(mh)
+        root.addHandler(fh)
+        mh.target = None
+        mh.close()
     return cap.text()
 
 
@@ -518,6 +544,22 @@ def run(ctx):
     names += ["é", "٣", "Config version ٣", "naïve [٣]"]
     kinds = ["zero", "ones", "cycle", "nibble", "short", "random", "random"]
     with Capture() as cap:
+        # ---------- the snapshot is the block AT THE TIME OF THE COMMAND, also when the application buffers its log records ----------
+        for kind_ in ("cycle", "random", "zero"):
+            hdr = gen_header(rng, labels, boundary=False)
+            block = gen_block(rng, kind_)
+            inp = {"kind": "snapshot-buffered", "hdr": hdr, "block": block.hex()}
+            try:
+                real_write_buffered(cap, "buffered", hdr, block)
+                ans, snaps, exc = real_parse_file(cap.path)
+                d = ("raised", f"{exc_name(exc)}: {exc}") if exc is not None else check_roundtrip(snaps, "buffered", hdr, block)
+            except Exception as e:  # noqa
+                d = ("raised", f"{type(e).__name__}: {e}")
+            ctx.count("evaluations")
+            ctx.hist("writer_outcomes", "buffered:" + ("ok" if d is None else "differs"))
+            if d is not None:
+                ctx.violation(f"buffered-handler:{d[0]}", inp, "one snapshot holding the block as it was when the command ran", d[1])
+                break
         for idx, name in enumerate(names):
             hdr = gen_header(rng, labels, boundary=(idx % 5 == 0))
             block = gen_block(rng, kinds[idx % len(kinds)])
@@ -874,6 +916,17 @@ def replay(inp):
         c = Ctx("C19", "quick", 0)
         check_unreliable_simulator(c, only=inp["case"])
         return bool(c.violations), c.violations[0]["observed"] if c.violations else "served unchanged"
+    if kind == "snapshot-buffered":
+        block = bytes.fromhex(inp["block"])
+        hdr = dict(inp["hdr"])
+        hdr["en"], hdr["co"] = tuple(hdr["en"]), tuple(hdr["co"])
+        with Capture() as cap:
+            real_write_buffered(cap, "buffered", hdr, block)
+            ans, snaps, exc = real_parse_file(cap.path)
+        if exc is not None:
+            return True, f"{type(exc).__name__}: {exc}"
+        d = check_roundtrip(snaps, "buffered", hdr, block)
+        return d is not None, {"difference": d}
     if kind == "snapshot":
         block = bytes.fromhex(inp["block"])
         hdr = dict(inp["hdr"])
